@@ -100,7 +100,8 @@ def corner_args(name, cheb):
     fam, par = REG[name][1], REG[name][2]
     if fam in ("cos", "sin"):
         hi, tight = (30.0, 1e-10) if cheb else (12.0, 1e-4)
-        l = [(0.01, 0.5), (0.01, tight), (1.0, 0.5), (hi, 0.5), (hi, tight), (2.0, 0.1)]
+        l = [(0.01, 0.5), (0.01, tight), (1.0, 0.5), (hi, 0.5), (hi, tight), (2.0, 0.1),
+             (0.3, 1e-4), (0.5, 1e-3), (1.0, 1e-6 if cheb else 1e-4), (2.0, tight), (0.05, 1e-6 if cheb else 1e-4), (0.7, tight)]
         # tau at zeros of the Bessel functions whose values are the series coefficients (2 J_n(tau)): a coefficient in the
         # MIDDLE of the series is (numerically) zero there while later ones are not
         zs = [scipy.special.jn_zeros(n, m)[-1] for n, m in ((0, 1), (0, 2), (2, 1), (4, 2), (6, 3), (1, 2), (3, 1), (5, 2), (8, 1), (7, 3))]
